@@ -1,6 +1,7 @@
 CONSTANTS
-  Workers <- MCNoWorkers
-  NTs <- MCNTs
+  Workers <- Workers_wall1
+  NTs <- NTs_wall1
+  ThreadNames <- Threads_wall1
   WyFix = FALSE
   AllowSpurious = FALSE
 INIT Init_wall1
